@@ -80,6 +80,11 @@ pub fn gen_case(r: &mut Rng, out: &mut String) {
     // --- a value from a short history
     writeln!(out, "new b0").unwrap();
     writeln!(out, "new b5").unwrap();
+    if r.chance(1, 8) {
+        // a completely full chunk (65536 values: its cardinality field is 0xFFFF), or one value short of it
+        let base = (key(r, nkeys) as u64) << 16;
+        writeln!(out, "insert_range b0 in:{} in:{}", base, base + 65535 - r.below(2)).unwrap();
+    }
     for _ in 0..r.range(0, 5) {
         match r.below(8) {
             0..=2 => writeln!(out, "insert b0 {}", value(r, nkeys)).unwrap(),
